@@ -548,6 +548,17 @@ func c19sharedCounterBody() {
 	if len(got) > 2 {
 		sched.Fail("counter-tracks-more-than-capacity / writers sharing a counter", fmt.Sprintf("capacity 2: %v", got))
 	}
+	// one of the two clients goes away (it frees the counter it was handed) while the other one - a new client of the
+	// same backend that was given the still registered counter - goes on counting
+	if sched.Choose(sched.ClsInput, 2, "one client frees the shared counter") == 1 {
+		c.Incr("before")
+		c.Free()
+		c.Incr("after")
+		c.Incr("after")
+		if got := c.Latch(); got["after"] != 2 || len(got) != 1 {
+			sched.Fail("accesses-lost / counter used after the other client freed it", fmt.Sprintf("two accesses of one key after Free: the counter reports %v", got))
+		}
+	}
 	sched.SetOutcome(fmt.Sprintf("more=%d %v", more, len(got)))
 }
 
